@@ -20,6 +20,9 @@ func NewHistogramFromCollection(c b6.UntypedCollection, id b6.CollectionID) (*in
 	} else {
 		h, err = newBucketedHistogram(c)
 	}
+	if err != nil {
+		return nil, err
+	}
 	h.CollectionID = id
 	h.Tags = append(h.Tags, b6.Tag{Key: "b6", Value: b6.NewStringExpression("histogram")})
 	return h, err
@@ -267,6 +270,16 @@ func categorical(kvs []*kv) (buckets, error) {
 }
 
 func uniform(kvs []*kv) (buckets, error) {
+	for _, kv := range kvs {
+		// Values that can be compared with the first, in both directions,
+		// can be compared with each other
+		if _, err := b6.Less(kvs[0].key, kv.key); err != nil {
+			return nil, err
+		}
+		if _, err := b6.Less(kv.key, kvs[0].key); err != nil {
+			return nil, err
+		}
+	}
 	sort.Slice(kvs, func(i, j int) bool {
 		less, err := b6.Less(kvs[i].key, kvs[j].key)
 		if err != nil {
@@ -319,6 +332,9 @@ func countValues(c b6.UntypedCollection) ([]*kv, error) {
 			break
 		}
 
+		if !IsHashable(i.Value()) {
+			return nil, fmt.Errorf("can't count values of type %T", i.Value())
+		}
 		var e *kv
 		if e, ok = m[i.Value()]; ok {
 			e.value++
